@@ -57,6 +57,7 @@ def evaluate(sub, obj, req):
     elif sub == "thermalfluid":
         Ts = [float.fromhex(t) for t in req["T"]]
         out["film"] = [hv(obj.film_coefficient(T, 1.0e6, 10.0)) for T in Ts]
+        out["polys"] = {k: [float(x).hex() for x in np.asarray(getattr(obj, k))] for k in ("cp_poly", "rho_poly", "mu_poly", "k_poly")}
     elif sub == "damage":
         if isinstance(obj, materials.StructuralMaterial):
             out["kind"] = "metallic"
